@@ -80,9 +80,20 @@ def fp_data(d):
     mask = np.ma.getmaskarray(a).ravel().tolist()
     vals = a.data.ravel().tolist() if a.dtype.kind != "O" else [str(x) for x in a.data.ravel()]
     flat = [None if m else canon_value(v) for v, m in zip(vals, mask)]
-    return {"shape": list(a.shape), "kind": a.dtype.kind, "isz": a.dtype.itemsize if a.dtype.kind in "iufb" else 0,
-            "flat": flat, "units": canon_value(d.get_units(None)), "cal": canon_value(d.get_calendar(None)),
-            "fill": canon_value(d.get_fill_value(None))}
+    out = {"shape": list(a.shape), "kind": a.dtype.kind, "isz": a.dtype.itemsize if a.dtype.kind in "iufb" else 0,
+           "flat": flat, "units": canon_value(d.get_units(None)), "cal": canon_value(d.get_calendar(None)),
+           "fill": canon_value(d.get_fill_value(None))}
+    # the array was recorded: overwrite it in place, so that an array that aliases the
+    # object's internal state shows up as a change of the object on the next look
+    try:
+        raw = np.ma.getdata(a)
+        if raw.size and raw.flags.writeable and raw.dtype.kind != "O":
+            raw[...] = np.zeros((), raw.dtype)
+        if np.ma.isMA(a) and a.mask is not np.ma.nomask and a.mask.flags.writeable:
+            a.mask[...] = True
+    except Exception:
+        pass
+    return out
 
 
 SCALAR_GETTERS = [
@@ -96,6 +107,7 @@ SCALAR_GETTERS = [
     ("quals", lambda x: x.qualifiers()),
     ("coords", lambda x: sorted(x.coordinates())),
     ("measure", lambda x: x.get_measure(None)),
+    ("external", lambda x: bool(x.nc_get_external())),
     ("geometry", lambda x: x.get_geometry(None)),
     ("clim", lambda x: bool(x.get_climatology(None))),
     ("cell", lambda x: x.get_cell(None)),
@@ -158,8 +170,14 @@ def fingerprint(x, names_only=False):
         except Exception:
             da = {}
         for k, c in x.constructs.items():
+            if c.construct_type == "cell_method":
+                continue
             cons[k] = {"t": c.construct_type, "fp": fingerprint(c, names_only), "axes": canon_value(da.get(k))}
         out["constructs"] = cons
+        # cell methods are inserted by creation commands without their keys: what counts is
+        # the order in which they are applied
+        out["cell_methods"] = [fingerprint(c, names_only)
+                               for c in x.constructs.filter_by_type("cell_method", todict=True).values()]
         if isinstance(x, cfdm.Field):
             out["data_axes"] = canon_value(x.get_data_axes(default=None))
     return out
@@ -194,6 +212,11 @@ def mk_data(spec):
         vals = np.array([(start + i) % 100 for i in range(n)], dtype=kind)
     if spec.get("inf") and kind.startswith("f") and n:
         vals[0] = np.inf
+    SPECIAL = {"nan": np.nan, "inf": np.inf, "-inf": -np.inf, "huge": 1e20, "-huge": -1e20}
+    for i, v in (spec.get("special") or {}).items():
+        # special values at given flat positions (float data only)
+        if kind.startswith("f") and n:
+            vals[int(i) % n] = SPECIAL[v]
     vals = vals.reshape(shape)
     m = spec.get("mask")
     if m:
@@ -209,6 +232,10 @@ def mk_data(spec):
         kw["calendar"] = spec["calendar"]
     if spec.get("fill") is not None:
         kw["fill_value"] = spec["fill"]
+    if isinstance(kw.get("units"), dict):
+        kw["units"] = mk_param(kw["units"])      # units that are not a string
+    if isinstance(kw.get("calendar"), dict):
+        kw["calendar"] = mk_param(kw["calendar"])
     return cfdm.Data(vals, **kw)
 
 
@@ -246,7 +273,7 @@ def mk_construct(spec):
     if spec.get("clim"):
         try:
             c.set_climatology(True)
-        except ValueError:
+        except (ValueError, TypeError):
             pass  # only reference-time coordinates can be climatological
     if spec.get("cell") is not None:
         c.set_cell(spec["cell"])
@@ -341,7 +368,7 @@ def mk_skeleton(sk):
         spec = dict(c)
         if spec.get("axes") is not None:
             spec["axes"] = [keys[a] if isinstance(a, int) else a for a in spec["axes"]]
-        f.set_construct(mk_cell_method(spec))
+        f.set_construct(mk_cell_method(spec), key=c.get("key"))
     for c in sk.get("crefs", []):
         f.set_construct(mk_cref(c))
     if sk.get("globals") and not sk.get("domain"):
@@ -379,7 +406,15 @@ def apply_mod(f, m, scratch):
         spec = dict(m[1])
         f.set_construct(mk_construct(spec), key=spec.get("key"), axes=spec.get("axes_keys"))
     elif op == "insert_cm":
-        f.set_construct(mk_cell_method(m[1]))
+        f.set_construct(mk_cell_method(m[1]), key=m[2] if len(m) > 2 else None)
+    elif op == "del_cms":
+        for k in list(f.cell_methods(todict=True)):
+            f.del_construct(k)
+    elif op == "copy":
+        return f.copy()
+    elif op == "cm_qualifier":
+        # edit a cell method of the field in place
+        list(f.cell_methods(todict=True).values())[m[1]].set_qualifier(m[2], m[3])
     elif op == "insert_cref":
         f.set_construct(mk_cref(m[1]))
     elif op == "set_data":
@@ -508,7 +543,7 @@ def abs_var(x):
         head.append(a1("nc_set_variable", nc))
     d = x.get_data(None) if hasattr(x, "get_data") else None
     tail = []
-    if isinstance(x, cfdm.Bounds) and x.nc_get_dimension(None) is not None:
+    if isinstance(x, (cfdm.Bounds, cfdm.InteriorRing)) and x.nc_get_dimension(None) is not None:
         tail.append(a1("nc_set_dimension", x.nc_get_dimension()))
     return {"cls": type(x).__name__, "head": head, "data": None if d is None else dtok(d), "tail": tail}
 
@@ -546,6 +581,8 @@ def abs_con(x):
             pre.append(a1("set_climatology", True))
         if hasattr(x, "get_measure") and x.get_measure(None) is not None:
             post.append(a1("set_measure", x.get_measure()))
+        if hasattr(x, "nc_get_external") and x.nc_get_external():
+            post.append(a1("nc_set_external", True))
         if hasattr(x, "get_cell") and x.get_cell(None) is not None:
             post.append(a1("set_cell", x.get_cell()))
         if hasattr(x, "get_connectivity") and x.get_connectivity(None) is not None:
@@ -870,6 +907,93 @@ def data_paren(ln):
 
 
 # ---------------------------------------------------------------------------
+# the state Data.__str__ looks at (Model.ddata), read off the object with numpy
+# ---------------------------------------------------------------------------
+CERR = {ValueError: "XValue", OverflowError: "XOverflow", AttributeError: "XAttr", TypeError: "XType"}
+
+
+def conv(values, mask, units, calendar, pair):
+    """Outcome of the date-time conversion of a scalar / of the pair [first, last]: the texts, or
+    the class of the exception (netCDF4.num2date is an input of the model)."""
+    try:
+        r = cfdm.Data(np.ma.array(values, mask=mask), units, calendar).datetime_array
+        if pair:
+            a, b = r
+            return ["ok", [f"{a}", f"{b}"]]
+        return ["ok", f"{r}"]
+    except Exception as e:
+        for k, v in CERR.items():
+            if isinstance(e, k):
+                return ["err", v]
+        return ["err", "XOther"]
+
+
+def ddata_state(d):
+    units = d.get_units(None)
+    calendar = d.get_calendar(None)
+    st = {"array": True, "units": ["none"] if units is None else (["str", units] if isinstance(units, str) else ["other"]),
+          "cal": None if calendar is None else f"{calendar}", "cal_truthy": bool(calendar),
+          "shape": [], "elems": [], "c1": ["ok", ""], "c2": ["ok", ["", ""]], "cm": ["ok", ""]}
+    try:
+        a = np.ma.asanyarray(d.array)
+    except Exception:
+        st["array"] = False
+        return st
+    st["shape"] = list(a.shape)
+    flat = a.ravel()
+    m = np.ma.getmaskarray(flat)
+    items = [None if m[i] else flat.data[i].item() for i in range(flat.size)]
+    st["elems"] = [None if x is None else f"{x}" for x in items]
+    if isinstance(units, str) and "since" in units and flat.size:
+        val = lambda i: (0 if items[i] is None else items[i])
+        msk = lambda i: items[i] is None
+        if flat.size == 1:
+            st["c1"] = conv(val(0), msk(0), units, calendar, False)
+        else:
+            st["c2"] = conv([val(0), val(-1)], (msk(0), msk(-1)), units, calendar, True)
+            st["cm"] = conv(val(1), msk(1), units, calendar, False)
+    return st
+
+
+def datas_of(x):
+    """every Data object the descriptions of x format"""
+    out = []
+    if isinstance(x, cfdm.Data):
+        return [x]
+    if isinstance(x, (cfdm.Field, cfdm.Domain)):
+        if isinstance(x, cfdm.Field) and x.get_data(None) is not None:
+            out.append(x.get_data())
+        for c in x.constructs.filter_by_data(todict=True).values():
+            out.extend(datas_of(c))
+        return out
+    for g in ("get_data", "get_bounds", "get_interior_ring"):
+        if hasattr(x, g):
+            try:
+                v = getattr(x, g)(None)
+            except Exception:
+                v = None
+            if v is not None:
+                out.extend([v] if isinstance(v, cfdm.Data) else datas_of(v))
+    return out
+
+
+def data_rows(x):
+    rows = []
+    for d in datas_of(x)[:12]:
+        try:
+            st = ddata_state(d)
+        except Exception as e:
+            rows.append({"state_err": type(e).__name__ + ": " + str(e)[:200]})
+            continue
+        try:
+            obs = ["ok", str(d)]
+        except Exception as e:
+            obs = ["err", errclass(e)]
+        rows.append({"st": st, "obs": obs})
+    return rows
+
+
+# ---------------------------------------------------------------------------
 def observe(rec, scratch):
     row = {"i": rec["i"]}
     try:
@@ -896,9 +1020,18 @@ def observe(rec, scratch):
             insp[name] = errclass(e) + "@" + where(e)
     row["insp"] = insp
     row["unchanged"] = (J(fingerprint(x)) == fp0)
+    try:
+        row["datas"] = data_rows(x)
+    except Exception as e:
+        row["datas_err"] = type(e).__name__ + ": " + str(e)[:200]
     if isinstance(x, (cfdm.Field, cfdm.Domain)):
         try:
             row["state"] = describe_state(x)
+            idents = [a["id"] for a in row["state"]["axes"]] + [c["id"] for c in row["state"]["cons"]] + [x.identity("")]
+            if any(ch in str(i) for i in idents for ch in "\n\r"):
+                # a line break inside an identity: the text cannot be split into items again
+                row["state"] = None
+                row["state_skipped"] = "line break in an identity"
             row["str_items"] = parse_str(texts["str"]) if "str" in texts else None
             row["dump_items"] = parse_dump(texts["dump"]) if "dump" in texts else None
         except Exception as e:
